@@ -8,7 +8,7 @@
    "T pushes N(m,v) forward to the law with cdf F" is stated as: T strictly increasing and
    F (T x) = ncdf m v x for every real x. *)
 From Coq Require Import Reals List ZArith.
-From GS Require Import Num Loops C19_Model C19_RInst C19_Proofs C19_Final.
+From GS Require Import Num Loops C19_Model C19_RInst C19_Proofs C19_Discrete C19_Final.
 Open Scope R_scope.
 
 (* the hypotheses on the oracle functions are satisfiable *)
@@ -89,3 +89,124 @@ Theorem C19_boxcox_inverts_normalizer :
        array_boxcox_elem O lmbda shift x = boxcox_denormalize O lmbda (x + shift)).
 Proof. exact F_boxcox. Qed.
 Print Assumptions C19_boxcox_inverts_normalizer.
+
+(* force_moments: for every finite non-constant sample the output has EXACTLY the requested sample
+   mean and (population) variance *)
+Theorem C19_force_moments_exact :
+  forall erf erfinv (field : list R) (mean var : R),
+    field <> nil -> 0 < Rvar field -> 0 <= var ->
+    let out := array_force_moments (Rops erf erfinv) field mean var in
+    length out = length field /\ Rmean out = mean /\ Rvar out = var.
+Proof. exact force_moments_exact. Qed.
+Print Assumptions C19_force_moments_exact.
+
+(* discrete: whenever array_discrete's set-up does not raise (any threshold mode), the cell receives the
+   value of the unique class i with thr[i-1] < x <= thr[i], independently of the previous cell content
+   (np.empty_like), and that value is one of the given values *)
+Theorem C19_discrete_values_partition :
+  forall erf erfinv field values mode mean var vals thr,
+    let O := Rops erf erfinv in
+    discrete_setup O field values mode mean var = Ok (vals, thr) ->
+    (forall v, In v vals <-> In v values) /\ length vals = S (length thr) /\
+    forall g x, exists i,
+      in_class thr x i /\
+      (forall j, in_class thr x j -> j = i) /\
+      discrete_elem O vals thr g x = nth i vals 0 /\
+      In (discrete_elem O vals thr g x) values.
+Proof. exact discrete_values_partition. Qed.
+Print Assumptions C19_discrete_values_partition.
+
+Theorem C19_discrete_output_in_values :
+  forall erf erfinv field values mode mean var g out,
+    array_discrete (Rops erf erfinv) g field values mode mean var = Ok out ->
+    length out = length field /\ Forall (fun y => In y values) out.
+Proof. exact array_discrete_output. Qed.
+Print Assumptions C19_discrete_output_in_values.
+
+(* 'arithmetic': thresholds are the midpoints of the sorted values, so the class value is a value nearest to x *)
+Theorem C19_discrete_arithmetic_nearest :
+  forall erf erfinv field values mean var vals thr,
+    let O := Rops erf erfinv in
+    discrete_setup O field values ThrArith mean var = Ok (vals, thr) ->
+    Permutation.Permutation vals values /\ Sorted.Sorted Rle vals /\
+    (forall i, (i < length thr)%nat -> nth i thr 0 = (nth i vals 0 + nth (S i) vals 0) / 2) /\
+    (forall g x v, In v values -> Rabs (x - discrete_elem O vals thr g x) <= Rabs (x - v)).
+Proof. exact arithmetic_thresholds. Qed.
+Print Assumptions C19_discrete_arithmetic_nearest.
+
+(* 'equal': the thresholds are the i/n quantiles of N(m, v): ascending, and every class has probability 1/n *)
+Theorem C19_discrete_equal_quantiles :
+  forall erf erfinv, erf_hyps erf erfinv -> forall m v n, 0 < v ->
+    let O := Rops erf erfinv in
+    (forall i, (0 < i < n)%nat -> ncdf erf m v (equal_threshold O m v n i) = INR i / INR n) /\
+    (forall i j, (0 < i)%nat -> (i < j)%nat -> (j < n)%nat ->
+       equal_threshold O m v n i < equal_threshold O m v n j) /\
+    (forall i, (0 < i)%nat -> (S i < n)%nat ->
+       ncdf erf m v (equal_threshold O m v n (S i)) - ncdf erf m v (equal_threshold O m v n i) = 1 / INR n).
+Proof. exact F_equal_thresholds. Qed.
+Print Assumptions C19_discrete_equal_quantiles.
+
+(* binary: lower for x <= divide, upper otherwise; the defaults split N(mean, sill) at its median into
+   mean -+ sqrt(sill), a two-point law with the same mean and variance *)
+Theorem C19_binary :
+  forall erf erfinv, erf_hyps erf erfinv -> forall g divide upper lower mean sill data,
+    let d := opt_or divide mean in
+    let u := opt_or upper (mean + sqrt sill) in
+    let l := opt_or lower (mean - sqrt sill) in
+    array_fn (Rops erf erfinv) g (MBinary divide upper lower) mean sill data
+      = Ok (map (fun x => if Rle_dec x d then l else u) data) /\
+    (divide = None -> upper = None -> lower = None -> 0 < sill ->
+       ncdf erf mean sill d = / 2 /\ (l + u) / 2 = mean /\ ((l - mean) ^ 2 + (u - mean) ^ 2) / 2 = sill).
+Proof. exact F_binary. Qed.
+Print Assumptions C19_binary.
+
+(* Field.transform wrappers.  process=True: whatever keep_mean is, (value handed to the array function) -
+   (mean handed to it) = (normal-space value of the stored datum) - (field mean), i.e. every push-forward
+   theorem above applies with the FIELD's mean and the model's sill *)
+Theorem C19_wrapper_standardised :
+  forall erf erfinv (c : fcfg) keep_mean data i,
+    let O := Rops erf erfinv in
+    trend_ok c data -> (i < length data)%nat ->
+    length (pre_process O c keep_mean data) = length data /\
+    nth i (pre_process O c keep_mean data) 0 - mean_arg O c true keep_mean
+    = c_nf c (nth i data 0 - trend_at c i) - c_mean c.
+Proof. exact wrapper_standardised. Qed.
+Print Assumptions C19_wrapper_standardised.
+
+(* process=False: a transformation that uses the mean / variance only ever runs on a default-normal field
+   (no normalizer, no trend) and is handed the field's mean and the model's sill *)
+Theorem C19_wrapper_guard :
+  forall erf erfinv (c : fcfg) g m keep_mean data out,
+    let O := Rops erf erfinv in
+    wrapper O g c m false keep_mean data = Ok out -> guarded m = true ->
+    default_normal c = true /\ array_fn O g m (c_mean c) (c_sill c) data = Ok out.
+Proof. exact wrapper_guard. Qed.
+Print Assumptions C19_wrapper_guard.
+
+(* processed uniform transformation, end to end: out = denormalize(shift + low + (high-low) Phi((z-mean)/sigma)) + trend,
+   z the normal-space value, shift = 0 (keep_mean) or the field mean (keep_mean=False) *)
+Theorem C19_wrapper_uniform_processed :
+  forall erf erfinv (c : fcfg) g low high keep_mean data out i,
+    let O := Rops erf erfinv in
+    0 < c_sill c -> trend_ok c data -> (i < length data)%nat ->
+    wrapper O g c (MUniform low high) true keep_mean data = Ok out ->
+    let z := c_nf c (nth i data 0 - trend_at c i) in
+    let u := ncdf erf (c_mean c) (c_sill c) z in
+    length out = length data /\
+    nth i out 0 = c_ni c ((if keep_mean then 0 else c_mean c) + (u * (high - low) + low)) + trend_at c i.
+Proof. exact wrapper_uniform_processed. Qed.
+Print Assumptions C19_wrapper_uniform_processed.
+
+(* stored fields (any number type): the returned values are those of the wrapper on the named source field and do
+   not depend on the store argument; they are stored under the selected name (the source name for store=True);
+   no other stored field changes; store=False changes nothing *)
+Theorem C19_transform_store :
+  forall (T : Type) (O : NumOps T) g (c : fcfg) fs m field s process keep_mean fs' out,
+    transform_step O g c fs m field s process keep_mean = Ok (fs', out) ->
+    (exists data, lookup fs field = Some data /\ wrapper O g c m process keep_mean data = Ok out) /\
+    let name := fst (store_config s field) in
+    (s = StFalse -> fs' = fs) /\
+    (s <> StFalse -> lookup fs' name = Some out /\ forall k, k <> name -> lookup fs' k = lookup fs k) /\
+    (s = StTrue -> name = field).
+Proof. exact @transform_store. Qed.
+Print Assumptions C19_transform_store.
